@@ -19,7 +19,7 @@ from harness import common as C
 from harness import opt_driver as D
 
 PID = "C16"
-GEN = ["C16Consts"]
+GEN = ["C16Consts", "C01Flows", "C16Flows"]   # C01Flows: translator/gen_c01.py (compiled llm_flows.co)
 CATS = ["input", "dialog", "retrieval", "output"]
 
 PREAMBLE = """From Coq Require Import String List Bool.
